@@ -1,14 +1,19 @@
 #!/usr/bin/env python3
-"""rs2lean_selftest.py — self-test of rs2lean.py + Lemmas/CodeEquiv.lean against realistic edits of the source.
+"""rs2lean_selftest.py — self-test of rs2lean.py + Lemmas/CodeEquiv.lean + Lemmas/InterpEquiv.lean against realistic
+edits of the source.
 
 Copies `$VERIF_REPO/jmespath/src` (default /repo) to a scratch directory, applies one edit at a time, runs
 `rs2lean.py` with `VERIF_SRC` pointing at the scratch copy and rebuilds `JmesVerif.Lemmas.CodeEquiv`:
   * harmless rewrites (reformatting, renamed locals, reordered branches, ...) must keep the build green;
   * semantic mutations must make the build fail, or the translator exit non-zero (broken tie).
 `Generated/Code.lean` is regenerated from the unmodified source at the end and the scratch copy removed.
-Usage: rs2lean_selftest.py [all|harmless|semantic]"""
+The edits of `fn interpret` (second target, `Generated/InterpCode.lean`, checked by `JmesVerif.Lemmas.InterpEquiv`) are in
+`interp_edits.py`.
+Usage: rs2lean_selftest.py [all|harmless|semantic|limits|interp|interp-harmless|interp-semantic]"""
 import os, shutil, subprocess, sys, tempfile, time
 HERE = os.path.dirname(os.path.abspath(__file__))
+sys.path.insert(0, HERE)
+from interp_edits import INTERP_HARMLESS, INTERP_SEMANTIC
 SNAP = os.path.join(os.environ.get("VERIF_REPO", "/repo"), "jmespath", "src")
 MUT = os.path.join(tempfile.gettempdir(), "rs2lean_selftest_src_%d" % os.getpid())
 LEAN = os.path.join(os.path.dirname(HERE), "lean")
@@ -100,7 +105,7 @@ NEEDS_PROOF_WORK["equivalent, but beyond the generic proof script: extra `let b 
   R("variable.rs", "    let mut i = a;\n    if step > 0 {", "    if step > 0 {\n        let len: i32 = 0;\n        if len == 1 {\n            return result;\n        }\n    }\n    let b = if b > len { len } else { b };\n    let mut i = a;\n    if step > 0 {"),
 ]
 
-def run(name, edits):
+def run(name, edits, target="JmesVerif.Lemmas.CodeEquiv", gen="Code.lean"):
     shutil.rmtree(MUT, ignore_errors=True)
     shutil.copytree(SNAP, MUT)
     for file, old, new, count in edits:
@@ -109,16 +114,16 @@ def run(name, edits):
         if s.count(old) != count:
             return f"EDIT DID NOT APPLY ({file}: {s.count(old)} occurrences)"
         open(p, "w").write(s.replace(old, new))
-    before = open(os.path.join(LEAN, "JmesVerif/Generated/Code.lean")).read()
+    before = open(os.path.join(LEAN, "JmesVerif/Generated", gen)).read()
     env = dict(os.environ, VERIF_SRC=MUT)
     r = subprocess.run([sys.executable, os.path.join(HERE, "rs2lean.py")], env=env, capture_output=True, text=True)
     if r.returncode != 0:
         return "translator: exit %d: %s" % (r.returncode, r.stderr.strip())
-    after = open(os.path.join(LEAN, "JmesVerif/Generated/Code.lean")).read()
-    strip = lambda t: "\n".join(l for l in t.splitlines() if not l.startswith("/--") and "sourceDigest" not in l)
-    changed = "Code.lean changed" if strip(before) != strip(after) else ("Code.lean changed in comments only" if before != after else "Code.lean unchanged")
+    after = open(os.path.join(LEAN, "JmesVerif/Generated", gen)).read()
+    strip = lambda t: "\n".join(l for l in t.splitlines() if not l.startswith("/--") and not l.strip().startswith("--") and "sourceDigest" not in l)
+    changed = f"{gen} changed" if strip(before) != strip(after) else (f"{gen} changed in comments only" if before != after else f"{gen} unchanged")
     t0 = time.time()
-    b = subprocess.run(["lake", "build", "JmesVerif.Lemmas.CodeEquiv"], cwd=LEAN, capture_output=True, text=True)
+    b = subprocess.run(["lake", "build", target], cwd=LEAN, capture_output=True, text=True)
     dt = time.time() - t0
     if b.returncode == 0:
         return f"{changed}; build OK ({dt:.0f}s)"
@@ -131,7 +136,7 @@ def restore():
     env = dict(os.environ)
     env.pop("VERIF_SRC", None)
     subprocess.run([sys.executable, os.path.join(HERE, "rs2lean.py")], env=env, check=True)
-    b = subprocess.run(["lake", "build", "JmesVerif.Lemmas.CodeEquiv"], cwd=LEAN, capture_output=True, text=True)
+    b = subprocess.run(["lake", "build", "JmesVerif.Lemmas.CodeEquiv", "JmesVerif.Lemmas.InterpEquiv"], cwd=LEAN, capture_output=True, text=True)
     print("restored; build", "OK" if b.returncode == 0 else "FAILS")
 
 if __name__ == "__main__":
@@ -149,5 +154,13 @@ if __name__ == "__main__":
             print("== equivalent rewrites the generic proofs do not absorb (a false alarm needing proof maintenance)")
             for k, v in NEEDS_PROOF_WORK.items():
                 print(f"  {k}: {run(k, v)}", flush=True)
+        if which in ("all", "interp", "interp-harmless"):
+            print("== interpret: harmless rewrites (expected: InterpCode.lean changes in shape only; build OK)")
+            for k, v in INTERP_HARMLESS.items():
+                print(f"  {k}: {run(k, v, 'JmesVerif.Lemmas.InterpEquiv', 'InterpCode.lean')}", flush=True)
+        if which in ("all", "interp", "interp-semantic"):
+            print("== interpret: semantic mutations (expected: build FAILS or translator exits non-zero)")
+            for k, v in INTERP_SEMANTIC.items():
+                print(f"  {k}: {run(k, v, 'JmesVerif.Lemmas.InterpEquiv', 'InterpCode.lean')}", flush=True)
     finally:
         restore()
